@@ -48,7 +48,7 @@ def scenarios(tier):
             if not quick:
                 pick.append({k: ['E'] for k in keys})
             assigns = pick[:(3 if quick else 64)]
-        for res in assigns:
+        for ai, res in enumerate(assigns):
             tag = ''.join(res[k][0] for k in sorted(res))
             for cc in (False, True):
                 if quick and cc and n > 4:
@@ -65,13 +65,14 @@ def scenarios(tier):
                 if cc and quick and n > 3:
                     bound = 1
                 jobs.append((scn, bound, 40 if quick else 900, 1,
-                             '%s/%s' % (name, tag)))
+                             '%s/%s' % (name, tag), ai))
+    jobs.sort(key=lambda j: j[5])
     return jobs
 
 
 def main(tier):
     rep = common.Report(PROP, tier)
-    jobs = common.rotate(scenarios(tier))
+    jobs = scenarios(tier)
     deadline = time.time() + (150 if tier == 'quick' else 3000)
     res = common.parallel_map(common.explore_job, [j[:4] for j in jobs],
                               deadline=deadline)
